@@ -63,7 +63,49 @@ def closure_cmp(facts, creator, closure_path):
                     cdf = df_of(creator, facts)
                     p = operand_path(cdf, ops[idx])
                     cap_field = p[1][-1] if p and p[1] and p[1][-1] in ("first_token", "last_token") else (f[0] if len(f) == 1 else "<value>")
+                    if cap_field == "<value>" and p and p[1] and p[1][-1] in ("0", "1"):
+                        # a component of `tablet.range()`: which bound it is follows from Tablet::range's own body
+                        sd = creator.single_def(p[0])
+                        if sd and sd[0] == "call" and sd[2].is_("Tablet::range"):
+                            cap_field = range_components(facts).get(int(p[1][-1]), "<value>")
     return (op, a[1], cap_field)
+
+
+def range_components(facts):
+    """{tuple index: field name} returned by Tablet::range(), read off its body"""
+    rb = facts.one(r"^scylla::routing::locator::tablets::Tablet::range$")
+    rdf = df_of(rb, facts)
+    out = {}
+    for bb in rb.live_blocks:
+        for st in rb.stmts(bb):
+            if st[0] == "A" and st[1] == [0, []] and st[2][0] == "agg" and st[2][1][0] == "tuple":
+                for i, op in enumerate(st[2][2]):
+                    pth = operand_path(rdf, op)
+                    if pth and pth[1]:
+                        out[i] = pth[1][-1]
+    return out
+
+
+def inline_cmp(facts, lb, source_call):
+    """normalised (op, tablet_field) of a guard `elem.F <op> x` written in the function body itself, where elem is the
+    payload of `source_call`'s result (the match-guard form of `.filter(|t| t.F <op> x)`)"""
+    df = df_of(lb, facts)
+    found = []
+    for bb, c in lb.calls():
+        if bb not in lb.live_blocks or not (c.decl or "").startswith("core::cmp::PartialOrd::"):
+            continue
+        op = c.decl.split("::")[-1]
+        sides = []
+        for a_ in c.args:
+            pth = operand_path(df, a_)
+            fld = pth[1][-1] if pth and pth[1] and pth[1][-1] in ("first_token", "last_token") else None
+            from_elem = source_call.dest[0] in backward_slice(lb, a_)[0]
+            sides.append((fld, from_elem))
+        if sides[0][0] and sides[0][1] and not sides[1][1]:
+            found.append((op, sides[0][0]))
+        elif sides[1][0] and sides[1][1] and not sides[0][1]:
+            found.append((FLIP[op], sides[1][0]))
+    return found
 
 
 def r1(ctx, facts):
@@ -84,23 +126,32 @@ def r1(ctx, facts):
                 muts.append((bb, s))
     drains = [c for c in b.calls_to("Vec::<T, A>::drain") if path_last(operand_path(df, c.args[0])) == "tablet_list"]
     inserts = [c for c in b.calls_to("Vec::<T, A>::insert") if path_last(operand_path(df, c.args[0])) == "tablet_list"]
+    # `list.splice(l..r, once(t))` is the one-call form of `drain(l..r); insert(l, t)`: it counts as both
+    splices = [c for c in b.calls_to("Vec::<T, A>::splice") if path_last(operand_path(df, c.args[0])) == "tablet_list"]
+    single = []
+    for c in splices:
+        _, cs, _ = backward_slice(b, c.args[2])
+        if any((x.name or "").endswith("core::iter::sources::once::once") for x in cs):
+            single.append(c)
+    if len(single) == 1 and not drains and not inserts:
+        drains, inserts = [single[0]], [single[0]]
     consumers = 0
     for bb, s in muts:
         l = s[1][0]
         t = b.term(bb)
         used = [c for c in drains + inserts if any(a[0] in ("c", "m") and l in backward_slice(b, a)[0] | {a[1][0]} for a in c.args[:1])]
         consumers += 1 if used else 0
-    r.instance("mutations-are-drain-and-insert", len(muts) == consumers and len(drains) == 1 and len(inserts) == 1,
+    r.instance("mutations-are-drain-and-insert", len(muts) == consumers and len(drains) == 1 and len(inserts) == 1 and len(splices) == len(single),
                "add_tablet must mutate tablet_list through exactly one drain and one insert; found %d mutable borrows, %d drain, %d insert" % (len(muts), len(drains), len(inserts)), b.span)
     # index-assignment / other mutators
     others = [c for bb, c in b.calls() if bb in b.live_blocks and c.args and path_last(operand_path(df, c.args[0])) == "tablet_list"
-              and (c.name or "").split("::")[-1] in ("index_mut", "push", "remove", "swap_remove", "retain", "retain_mut", "truncate", "clear", "extend", "splice", "sort_by", "sort_unstable_by", "sort_by_key", "dedup_by", "get_mut", "iter_mut", "last_mut", "first_mut")]
+              and (c.name or "").split("::")[-1] in ("index_mut", "push", "remove", "swap_remove", "retain", "retain_mut", "truncate", "clear", "extend", "splice", "sort_by", "sort_unstable_by", "sort_by_key", "dedup_by", "get_mut", "iter_mut", "last_mut", "first_mut") and c not in drains]
     r.instance("no-other-mutation-in-add_tablet", not others, "add_tablet mutates tablet_list through %s as well" % [c.name.split("::")[-1] for c in others], others[0].span if others else b.span)
     if drains and inserts:
         exits = set(b.exits)
         r.instance("every-path-drains", not (b.reachable_from(0, removed_nodes=[drains[0].bb]) & exits), "every path through add_tablet must remove the overlapped tablets (drain)", drains[0].span)
         r.instance("every-path-inserts", not (b.reachable_from(0, removed_nodes=[inserts[0].bb]) & exits), "every path through add_tablet must insert the new tablet", inserts[0].span)
-        r.instance("drain-before-insert", b.dominates(drains[0].bb, inserts[0].bb) and drains[0].bb != inserts[0].bb, "overlapped tablets must be drained before the new one is inserted", inserts[0].span)
+        r.instance("drain-before-insert", drains[0] is inserts[0] or (b.dominates(drains[0].bb, inserts[0].bb) and drains[0].bb != inserts[0].bb), "overlapped tablets must be drained before the new one is inserted", inserts[0].span)
     return b, df, drains, inserts
 
 
@@ -111,8 +162,9 @@ def r2(ctx, facts, add):
     ldf = df_of(lb, facts)
     pp = [c for c in lb.calls_to("<impl [T]>::partition_point") ]
     flt = lb.calls_to("Option::<T>::filter")
-    if len(pp) != 1 or len(flt) != 1:
-        raise AnchorLost("tablet_for_token: expected one partition_point and one filter (%d/%d)" % (len(pp), len(flt)))
+    gets = lb.calls_to("core::slice::<impl [T]>::get", "Vec::<T, A>::get")
+    if len(pp) != 1 or (len(flt) != 1 and len(gets) != 1):
+        raise AnchorLost("tablet_for_token: expected one partition_point and one filter / guarded get (%d/%d/%d)" % (len(pp), len(flt), len(gets)))
 
     def closure_of(body, call, argi):
         a = call.args[argi]
@@ -122,7 +174,15 @@ def r2(ctx, facts, add):
                 return sd[3][1][1]
         raise AnchorLost("predicate closure of %s not found" % call.name)
     look_part = closure_cmp(facts, lb, closure_of(lb, pp[0], 1))
-    look_filt = closure_cmp(facts, lb, closure_of(lb, flt[0], 1))
+    if len(flt) == 1:
+        look_filt = closure_cmp(facts, lb, closure_of(lb, flt[0], 1))
+        flt_span = flt[0].span
+    else:
+        ic = inline_cmp(facts, lb, gets[0])
+        if len(ic) != 1:
+            raise AnchorLost("tablet_for_token: the candidate returned by get(idx) is not guarded by exactly one comparison (%s)" % ic)
+        look_filt = (ic[0][0], ic[0][1], "<value>")
+        flt_span = gets[0].span
     ipp = b.calls_to("<impl [T]>::partition_point")
     if len(ipp) != 2:
         raise AnchorLost("add_tablet: expected two partition_point calls, found %d" % len(ipp))
@@ -130,7 +190,7 @@ def r2(ctx, facts, add):
     left = [x for x in cs if x[1][2] == "first_token"]
     right = [x for x in cs if x[1][2] == "last_token"]
     r.instance("lookup-partition", look_part[:2] == ("lt", "last_token"), "lookup partitions by %s(t.%s, token); expected lt(t.last_token, token)" % look_part[:2], pp[0].span)
-    r.instance("lookup-filter", look_filt[:2] == ("le", "first_token"), "lookup filters by %s(t.%s, token); expected le(t.first_token, token)" % look_filt[:2], flt[0].span)
+    r.instance("lookup-filter", look_filt[:2] == ("le", "first_token"), "lookup filters by %s(t.%s, token); expected le(t.first_token, token)" % look_filt[:2], flt_span)
     if len(left) != 1 or len(right) != 1:
         r.fail("insert-bounds-capture", "add_tablet's two bounds must capture new.first_token and new.last_token respectively; found %s" % [x[1] for x in cs], b.span)
         return
@@ -148,8 +208,12 @@ def r2(ctx, facts, add):
             e0, e1 = df.expr_of_operand(ops[0]), df.expr_of_operand(ops[1])
             rng = (e0 == ("call", left[0][0].bb), e1 == ("call", right[0][0].bb))
         r.instance("drain-range-is-left-to-right", rng == (True, True), "drain must remove exactly left_idx..right_idx", drains[0].span)
-        ei = df.expr_of_operand(inserts[0].args[1])
-        r.instance("insert-at-left", ei == ("call", left[0][0].bb), "the new tablet must be inserted at left_idx (keeps the list sorted)", inserts[0].span)
+        if inserts[0] is drains[0]:
+            # splice(left..right, once(t)) inserts at the start of the removed range by definition
+            r.instance("insert-at-left", rng == (True, True), "the new tablet must replace exactly left_idx..right_idx (keeps the list sorted)", inserts[0].span)
+        else:
+            ei = df.expr_of_operand(inserts[0].args[1])
+            r.instance("insert-at-left", ei == ("call", left[0][0].bb), "the new tablet must be inserted at left_idx (keeps the list sorted)", inserts[0].span)
 
 
 def r3(ctx, facts):
